@@ -47,7 +47,7 @@ MANIFEST = {
             "only the listed inputs — that part is covered only by the differential oracle.",
 }
 
-N_QUICK = 12
+N_QUICK = 10
 N_THOROUGH = 500
 
 
@@ -135,6 +135,12 @@ def run_cli(veryl, suite, root, tag, order=None, only=None, reuse=True, cpu=None
     if min_bytes is not None:
         env["VERYL_DUT_REUSE_MIN_BYTES"] = str(min_bytes)
     rc, out, err = C.sh(cmd, cwd=d, env=env, timeout=600)
+    if rc == 124:
+        # a loaded machine (the cc backend runs gcc) is not a hang: one retry with a long limit;
+        # only a second timeout is reported
+        shutil.rmtree(d, ignore_errors=True)
+        materialise(suite, d, only=[only] if only else None, order=order)
+        rc, out, err = C.sh(cmd, cwd=d, env=env, timeout=2400)
     r = Run(tag)
     r.rc = rc
     r.err = err[-1500:]
@@ -532,7 +538,10 @@ def run(tier, seed, replay):
                                 "each test alone; harness: shared vs uncached, tb and driven mode); non-trivial = suite in which a "
                                 "component recurs across tests AND the hook reported >=1 relocated reuse hit; distinct by suite text+options")
         res.coverage["suites"] = len(suites)
-        res.obligation("oracle: shared-cache runs = fresh-process runs = reuse-off runs on %d suites" % len(suites), not all_bad)
+        unknown_bad = [b for _, b in all_bad if b[0] not in res.known]
+        res.coverage["known_finding_observations"] = len(all_bad) - len(unknown_bad)
+        res.obligation("oracle: shared-cache runs = fresh-process runs = reuse-off runs on %d suites "
+                       "(apart from the listed known finding)" % len(suites), not unknown_bad)
         res.obligation("reuse actually exercised (relocated hits reported by the hook)", len(nontrivial) > 0 or not suites)
 
         reported = set()
